@@ -20,14 +20,14 @@ FILL2 = [b'', TM[:3], ET, b'\0' * 3, SS, b'\x00\x1d', b'\x00' + TM[:1]]
 THREADMAPS = [[(5, 6, 'abc'), (7, 8, 'd')], [], [(5, 6, 'abc')], [(5, 6, 'abc'), (5, 9, 'x'), (1, 6, 'zz')]]
 GAPS = [b'', b'\0' * 8, b'gapgapga', ME]
 
-STRINGS = {'hello %d': 1, 'procname': 2, 'sender': 3, 'other': 4}
+STRINGS = {'hello %d': 1, 'procname': 0, 'sender': 3, 'other': 4}   # the process name sits at string number 0
 
 
 def log_event(i, with_proc, with_tid):
     e = {'cm': 1, 't': 'logEvent', 's': 10 + i, 'tid': (100 + i) if with_tid else 0, 'ns': 5, 'mct': 6 + i, 'b': b'B' * 16,
          'piu': b'P' * 16, 'ud': {'sec': 1600000000 + i, 'usec': 250000}, 'utz': {'mw': 0, 'dt': 0}}
     if with_proc:
-        e['p'] = 2
+        e['p'] = 0
         e['pid'] = 40 + i
     return e
 
